@@ -33,7 +33,7 @@ class ConfigStore:
     def __init__(self):
         self.values: dict[int, int] = {}  # configId -> value
         self.unreadable: set[int] = set()
-        self.reject: set[int] = set()  # configIds whose set is answered with an error
+        self.reject = set()  # configIds whose set is answered with an error; a dict gives the raw status code per id
         self.ezsp_values: dict[int, bytes] = {}
         self.reject_values: set[int] = set()
         self.unreadable_values: set[int] = set()
@@ -57,6 +57,8 @@ def install_config(ncp, store: ConfigStore | None = None):
         if ok:
             store.values[cid] = val
             return [status(n, "setConfigurationValue", "ok")]
+        if isinstance(store.reject, dict) and store.reject[cid] is not None:
+            return [store.reject[cid]]
         return [status(n, "setConfigurationValue", "invalid_value")]
 
     def get_val(n, a):
